@@ -276,7 +276,7 @@ $server = new Server('127.0.0.1', 0);
 			case "bigbody": // response bodies far above typical buffer sizes
 				fmt.Fprintf(&b, "  $t8 = $req->header(\"X-T\");\n  $out .= \"%s=\" . str_repeat($t8 . \".\", %d) . \";\";\n", lab, []int{9000, 14000, 40000}[bi%3])
 			case "builtins": // commonly used builtins that may keep scratch state
-				fmt.Fprintf(&b, "  $t9 = $req->header(\"X-T\");%s\n  $out .= \"%s=\" . json_encode([\"t\" => $t9, \"k\" => $k]) . sprintf(\"%%s-%%05d\", $t9, $k) . str_replace(\"t\", \"T\", $t9) . strtoupper($t9) . implode(\"+\", explode(\"v\", $t9)) . str_pad($t9, 8, \"*\") . md5($t9) . substr($t9, 1) . strrev($t9) . ucfirst($t9) . count(str_split($t9)) . preg_replace(\"/v(\\\\d+)/\", \"V$1\", $t9) . \";\";\n", gate, lab)
+				fmt.Fprintf(&b, "  $t9 = $req->header(\"X-T\");%s\n  $out .= \"%s=\" . json_encode([\"t\" => $t9, \"k\" => $k]) . sprintf(\"%%s-%%05d\", $t9, $k) . str_replace(\"t\", \"T\", $t9) . strtoupper($t9) . implode(\"+\", explode(\"v\", $t9)) . str_pad($t9, 8, \"*\") . md5($t9) . substr($t9, 1) . ucfirst($t9) . count(str_split($t9)) . preg_replace(\"/v(\\\\d+)/\", \"V$1\", $t9) . \";\";\n", gate, lab)
 			case "nested":
 				fmt.Fprintf(&b, "  $t7 = $req->header(\"X-T\");\n  $out .= \"%s=\" . outerfn($t7, %d) . \";\";\n", lab, 1+bi%3)
 			case "attr":
@@ -418,6 +418,19 @@ func exec(t *testing.T, x any, s hx.Sched) *hx.Outcome {
 	restore()
 	verifsim.SetMapConfig(nil)
 	for i := range solo {
+		// the generated handlers must work when run alone, or they test nothing
+		if w.Reqs[i].AbortAt < 0 && !w.Reqs[i].FailW {
+			ok := solo[i].Panic == "" && solo[i].Err == ""
+			for bi := range w.Handlers[w.Reqs[i].H].Blocks {
+				if !strings.Contains(solo[i].Body, fmt.Sprintf("b%d.", bi)) {
+					ok = false
+				}
+			}
+			if !ok {
+				o.Violate("C11/harness-setup", fmt.Sprintf("a generated handler does not run to completion when served alone: %s; script: %s", solo[i], src))
+				return o
+			}
+		}
 		if solo[i].String() != solo2[i].String() {
 			// generator self-check: the handler is not a pure function of its request
 			o.Discarded = true
